@@ -148,7 +148,8 @@ class XsdComplexType(XsdType, ValidationMixin[Union[ElementType, str, bytes], An
             self.content = self.builders.group_class(content_elem, self.schema, self)
             default_open_content = self.default_open_content
             if default_open_content is not None and \
-                    (self.mixed or self.content or default_open_content.applies_to_empty):
+                    (self.mixed or self.content and self.content.max_occurs != 0
+                     or default_open_content.applies_to_empty):
                 self.open_content = default_open_content
             self._parse_content_tail(self.elem)
 
